@@ -123,6 +123,6 @@ func HasClockDeviation(x *vsched.Exec) bool {
 }
 
 func KeySafe(s string) string {
-	r := strings.NewReplacer("/", "_", " ", "_", ":", "_", "|", "_", "*", "x", "(", "", ")", "", "<", "", ">", "")
+	r := strings.NewReplacer("/", "_", " ", "_", ":", "_", "|", "_", "*", "x", "(", "", ")", "", "<", "", ">", "", "\"", "", ",", "_", "[", "", "]", "")
 	return r.Replace(s)
 }
